@@ -541,10 +541,6 @@ theorem dataAt_merge_free (x a : Entry) (ns : String) (hr : x.d.isRpc = false) (
           rw [find?_of_nodup a.dir hf.2 hcm]
           exact hd
 
-/-- An augment's target, where it exists in the view, is not an rpc / action node itself
-(`input` and `output` below it are fine).  Outside the claim of C07. -/
-def NoRpcTarget (v : View) (A : Aug) : Prop := ∀ t, A.target = some t → ∀ d, v t d → d.isRpc = false
-
 theorem nsOfR_le (R : Res) {f f' : Forest} (h : FLe f f') (id : Nat) : nsOfR R f' id = nsOfR R f id := by
   unfold nsOfR
   have := h.isSome id
@@ -564,10 +560,9 @@ theorem attempt_fail {R : Res} {id : Nat} {ae : Bool} {nsOf : String} {a : Entry
 theorem attempt_ok {R : Res} {id : Nat} {ae : Bool} {nsOf : String} {a : Entry} {f f' : Forest}
     (h : attemptR R id ae nsOf a f = (f', true)) (f0 : Forest) (hns : nsOf = nsOfR R f0 id) :
     FLe f f' ∧ (absAug R f0 id a).Applicable (viewOf f) ∧
-    (NoRpcTarget (viewOf f) (absAug R f0 id a) → (absAug R f0 id a).roots.Nodup →
+    ((absAug R f0 id a).roots.Nodup →
       ¬ (absAug R f0 id a).Collides (viewOf f) → viewOf f' = graft (viewOf f) (absAug R f0 id a)) ∧
-    (NoRpcTarget (viewOf f) (absAug R f0 id a) →
-      (¬ (absAug R f0 id a).roots.Nodup ∨ (absAug R f0 id a).Collides (viewOf f)) →
+    ((¬ (absAug R f0 id a).roots.Nodup ∨ (absAug R f0 id a).Collides (viewOf f)) →
       FVisErr f' (Err.at_ a.d.node "duplicate-node")) := by
   have hout := attemptR_outcome R id ae nsOf a f
   rw [h] at hout
@@ -590,12 +585,11 @@ theorem attempt_ok {R : Res} {id : Nat} {ae : Bool} {nsOf : String} {a : Entry} 
     have ht2 : (f1.setTree t (root'.updateAt q fun te => te.merge (some nsOf) a)).tree? t =
         some (root'.updateAt q fun te => te.merge (some nsOf) a) := tree?_setTree_same ht1 _
     -- the model's collision test is the view's
-    have hfree_iff : NoRpcTarget (viewOf f) (absAug R f0 id a) →
+    have hxr : x.d.isRpc = false := by
+      simp only [cannotHaveChildren, Bool.or_eq_false_iff] at hcan
+      exact hcan.2
+    have hfree_iff :
         (FreeIn x a.dir ↔ ((absAug R f0 id a).roots.Nodup ∧ ¬ (absAug R f0 id a).Collides (viewOf f))) := by
-      intro hnr
-      have hxr : x.d.isRpc = false := by
-        have := hnr (t, names) htarget (nodeData x.d) ((hview_t names _).mpr hxdata)
-        simpa [nodeData] using this
       have hcol : (absAug R f0 id a).Collides (viewOf f) ↔ ∃ c ∈ a.dir, x.child? c.name ≠ none := by
         constructor
         · rintro ⟨tt, htt, k, hk, d, hd⟩
@@ -603,7 +597,6 @@ theorem attempt_ok {R : Res} {id : Nat} {ae : Bool} {nsOf : String} {a : Entry} 
           obtain ⟨c, hc, rfl⟩ := List.mem_map.mp hk
           refine ⟨c, hc, ?_⟩
           have := (hview_t _ d).mp hd
-          simp only [Aug.rootLoc] at this
           rw [hbelow, dataAt_cons, kid_nonrpc hxr] at this
           intro hnone
           rw [hnone] at this
@@ -631,11 +624,8 @@ theorem attempt_ok {R : Res} {id : Nat} {ae : Bool} {nsOf : String} {a : Entry} 
       refine ⟨(t, names), htarget, nodeData x.d, (hview_t names _).mpr hxdata, ?_⟩
       rw [canHave_iff, hcan]; rfl
     · -- exact effect
-      intro hnr hnd hnc
-      have hfree : FreeIn x a.dir := (hfree_iff hnr).mpr ⟨hnd, hnc⟩
-      have hxr : x.d.isRpc = false := by
-        have := hnr (t, names) htarget (nodeData x.d) ((hview_t names _).mpr hxdata)
-        simpa [nodeData] using this
+      intro hnd hnc
+      have hfree : FreeIn x a.dir := hfree_iff.mpr ⟨hnd, hnc⟩
       have hnsEq : (absAug R f0 id a).ns = nsOf := by simp [absAug, hns]
       funext l d
       apply propext
@@ -692,10 +682,10 @@ theorem attempt_ok {R : Res} {id : Nat} {ae : Bool} {nsOf : String} {a : Entry} 
             exact absurd h2 hlt
           · exact h
     · -- a collision is recorded
-      intro hnr hbad
+      intro hbad
       have hnf : ¬ FreeIn x a.dir := by
         intro hf
-        have := (hfree_iff hnr).mp hf
+        have := hfree_iff.mp hf
         rcases hbad with h | h
         · exact h this.1
         · exact this.2 h
